@@ -451,6 +451,84 @@ type c14MapCase struct {
 	Bank   uint32 `json:"bank"` // $70, $71, $F0 or $F1
 }
 
+// c14HookCase: a short program whose WDM hook raises an interrupt from inside the step (the way a cartridge device or a
+// test driver does); the run with a Logger must end exactly like the run without one.
+type c14HookCase struct {
+	E      bool `json:"e"`
+	P      byte `json:"p"`
+	NMI    bool `json:"nmi"`    // the hook raises an NMI instead of an IRQ
+	Budget int  `json:"budget"` // cycles
+	Nops   int  `json:"nops"`   // NOPs between CLI and the WDM
+	// Target: 0 = an address the run never reaches, 1 = the instruction right after the first WDM (the run ends there
+	// with the interrupt still pending), 2 = the handler's first instruction
+	Target int `json:"target"`
+}
+
+func c14HookCheck(c c14HookCase) error {
+	sys, scpu := c12System()
+	never := uint32(0x123456)
+	switch c.Target {
+	case 1:
+		never = 0x008000 + 1 + uint32(c.Nops) + 2
+	case 2:
+		never = 0x009000
+	}
+	run := func(traced bool) (rig.Raw, *rig.Mem, int, error) {
+		m := rig.NewMem(0xC14)
+		prog := []byte{0x58}
+		for i := 0; i < c.Nops; i++ {
+			prog = append(prog, 0xEA)
+		}
+		prog = append(prog, 0x42, 0x01, 0xEA, 0xEA, 0x42, 0x03, 0xEA, 0xEA, 0xEA, 0xEA, 0x80, 0xFC)
+		for i, b := range prog {
+			m.Poke(0x008000+uint32(i), b)
+		}
+		for i, b := range []byte{0xE6, 0x10, 0xEE, 0x34, 0x12, 0x40} { // handler: INC $10; INC $1234; RTI
+			m.Poke(0x009000+uint32(i), b)
+		}
+		for _, vec := range []uint32{0xFFEE, 0xFFEA, 0xFFFE, 0xFFFA} {
+			m.Poke(vec, 0x00)
+			m.Poke(vec+1, 0x90)
+		}
+		scpu.SetMem(m)
+		scpu.C.OnPC, scpu.C.OnWDM = nil, nil
+		scpu.LoadRaw(rig.ArchToRaw(wdc.Arch{A: 0x0102, X: 3, Y: 4, S: 0x01F0, PC: 0x8000, K: 0, DBR: 0, P: c.P | 0x04, E: c.E}))
+		hooks := 0
+		scpu.C.OnWDM = func(b byte) {
+			hooks++
+			if c.NMI {
+				scpu.SetInterrupt(interruptNMI)
+			} else {
+				scpu.TriggerIRQ()
+			}
+		}
+		defer func() { scpu.C.OnWDM = nil; sys.Logger = nil }()
+		sys.Logger = nil
+		if traced {
+			sys.Logger = &countWriter{}
+		}
+		if p := rig.Safe(func() error { sys.RunUntil(never, uint64(c.Budget)); return nil }); p != nil {
+			return rig.Raw{}, nil, 0, p
+		}
+		return scpu.Raw(), m, hooks, nil
+	}
+	ra, ma, ha, err := run(false)
+	if err != nil {
+		return fmt.Errorf("untraced run with an interrupt-raising WDM hook failed: %v", err)
+	}
+	rb, mb, hb, err := run(true)
+	if err != nil {
+		return fmt.Errorf("traced run with an interrupt-raising WDM hook failed: %v", err)
+	}
+	if ra != rb || ha != hb {
+		return fmt.Errorf("a WDM hook raises an interrupt during the run: with a Logger the run ends in %+v (hook ran %d times), without one in %+v (%d times)", rb, hb, ra, ha)
+	}
+	if dm := rig.DiffMem(ma, mb, 4); len(dm) > 0 {
+		return fmt.Errorf("a WDM hook raises an interrupt during the run: running with a Logger changed memory at $%06X", dm[0])
+	}
+	return nil
+}
+
 func c14RealMapCheck(c c14MapCase) error {
 	code := append(append([]byte(nil), c.Body...), 0x80, byte(-(len(c.Body) + 2)))
 	startOff := 0x8000 - len(code)
@@ -497,6 +575,13 @@ func init() {
 		if err := json.Unmarshal(data, &rf); err != nil {
 			return err
 		}
+		if rf.Kind == "hook-interrupt" {
+			var hc c14HookCase
+			if err := json.Unmarshal(rf.Case, &hc); err != nil {
+				return err
+			}
+			return c14HookCheck(hc)
+		}
 		if rf.Kind == "realmap" {
 			var mc c14MapCase
 			if err := json.Unmarshal(rf.Case, &mc); err != nil {
@@ -516,7 +601,7 @@ func TestC14(t *testing.T) {
 	rig.Main(t, "C14", "rapid programs (JIT synthesis, all opcodes, all width settings, forward and backward rel8, BRL/PER) run twice: on emulator.System with and without a recording "+
 		"Logger, and on cpualt with and without DisassembleCurrentPC before each step; final registers, flags, cycle totals and memory must be equal, and every trace line is parsed and "+
 		"compared with an independent decoder (address, exact byte list for the current widths, mnemonic, canonical operand rendering, branch destination, register values in the selected "+
-		"width, flag letters); half of the traced runs are preceded by a traced run whose sink panics on its second line; the bus-fault record of the traced run is compared with the untraced one.  Non-trivial = at least one line judged; distinct = hash(case).",
+		"width, flag letters); half of the traced runs are preceded by a traced run whose sink panics on its second line; the bus-fault record of the traced run is compared with the untraced one; short programs whose WDM hook raises an IRQ or NMI in the middle of the run are run traced and untraced to three kinds of end.  Non-trivial = at least one line judged; distinct = hash(case).",
 		func(r *rig.Run) {
 			ev := r.Ev
 			twin, _ := cpus()
@@ -603,6 +688,27 @@ func TestC14(t *testing.T) {
 					}
 				}
 				ev.ClassN("real-map/program-ends-at-the-last-mapped-byte", int64(n))
+				// interrupts raised by a WDM hook in the middle of a run, traced against untraced
+				nh := 0
+				for _, mode := range []struct {
+					e bool
+					p byte
+				}{{false, 0x00}, {false, 0x30}, {true, 0x30}} {
+					for _, nmi := range []bool{false, true} {
+						for _, budget := range []int{3, 5, 8, 13, 21, 40, 90} {
+							for _, nops := range []int{0, 1, 3} {
+								for target := 0; target < 3; target++ {
+									hc := c14HookCase{E: mode.e, P: mode.p, NMI: nmi, Budget: budget, Nops: nops, Target: target}
+									r.CheckSweep("hook-interrupt", hc, func() error { return c14HookCheck(hc) })
+									raw, _ := json.Marshal(hc)
+									ev.Case(true, rig.Hash64(raw), nil)
+									nh++
+								}
+							}
+						}
+					}
+				}
+				ev.ClassN("interrupt-raised-by-a-WDM-hook-during-the-run", int64(nh))
 			}
 			ev.Extra["opcode_x_M_x_X_cells"] = cells[:]
 			ev.Extra["const_cells_layout"] = "index = opcode<<2 | m8<<1 | x8; value = traced instructions"
